@@ -8,6 +8,7 @@
 //   c10.info   imp|conv BYTES           Hybrid*Info::from_bytes
 //   c10.infonew KEYID SITE TS EPS SENS  HybridConversionInfo::new + to_bytes + from_bytes
 //   c10.stream TY REG LOG CHUNKS        LengthDelimitedStream -> try_flatten_iters -> decrypt (as Query::execute)
+//   c10.query  SZ REG LOG LABELS EXP CHUNKS1 CHUNKS2 CHUNKS3   the real Query::execute on three helpers (see below)
 // REG  = comma list of base-key indices; position in the list = key id of the helper's registry (`-` = no keys)
 // LOG  = comma list of `k:info:plain:enc:ct` = everything that was ever sealed (k = base-key index);
 //        this is the table of the ideal AEAD against which the model decides `open`.
